@@ -261,6 +261,13 @@ func H_C07_Recover(v *verifrt.T) {
 	c.Add(&hashFile{File: src.files["a"], hash: "h-a"})
 	c.Add(&hashFile{File: src.files["d"], hash: "h-d"})
 	c.Done("d", nil)
+	// a cached, unconfirmed file that vanished from the outgoing directory while
+	// the sender was down (it is visited last: the cache is walked by name)
+	vanished := v.Choose("another-cached-file-vanished", 2) == 1
+	if vanished {
+		c.Add(&hashFile{File: &vSrcFile{name: "zz", size: 2, time: mt, tag: "v1"}, hash: "h-zz"})
+		v.Reach("vanished-entry")
+	}
 	// while the sender was down the file may have been replaced
 	changed := v.Choose("file-replaced-while-down", 3) // 0 no, 1 same size / other mtime, 2 other size
 	switch changed {
